@@ -421,31 +421,39 @@ example : ∃ s', (tryCore (throw (Sig.err ⟨"Operand is not a number", 1, 1⟩
 
 /-- The evaluator model never yields `panic` — PARTIAL.
 
-    Full statement (kept visible): for every well-formed tree `n` (every node has a token, no nil
-    child, operators have their operand count, `if` has guard/block pairs, `loop` has two children,
-    `try` … as C07's `WellFormed`), every scope `sc`, every state `s` whose function table and
-    interpolation table hold well-formed trees and whose function values are valid, and every fuel `f`:
-    `(eval f sc n).run.run s ≠ (.error Sig.panic, _)`.
+    Full statement (kept visible): for every tree `n` the parser can return (C07's `WellFormed`), every
+    scope `sc`, every state `s` with `Inv s` and every fuel `f`: `(eval f sc n).run.run s` does not end in
+    `Sig.panic`. About the CODE it additionally needs the hypothesis "no container that (transitively)
+    contains itself reaches fmt.Sprint / log / `%#v`" (known finding `cyclic-container-stringify`: the Go
+    printer overflows the stack; the model's printer is fuel-bounded and cannot panic) — SPEC["assumptions"].
 
-    Proved here: exactly that, for the sub-language `Frag` (`Ecal/Lemmas/C06NoPanic.lean`): the literals
-    `number true false null` and raw string literals, unary and binary `plus minus`, `times div divint`,
-    `modint` (the repaired zero-divisor site), `and or not`, `guard`, `break continue`, `return` (with or
-    without value) and `statements` blocks of any length, nested to any depth — over
-    ANY state and scope (no hypothesis on the heap) and any fuel. These are the constructs whose Go code
-    asserts operand kinds and divides integers.
-    Missing: identifiers / assignment / access paths, list and map literals, `== != in notin`, function
-    declarations and calls (the argument checks of the builtins are covered by `builtin_total` on the
-    Prims model instead), `if` / loops / `try` (their control skeleton: `error_in_try_catchable`
-    and the C04 theorems about the combinators), interpolating strings, and the comparison / string
-    operators. The last two stringify values: that is where the known finding
-    `cyclic-container-stringify` lives; the Lean model cannot panic there (its printer is fuel-bounded),
-    the Go code overflows its stack, so the full statement about the CODE needs the hypothesis "no
-    container that (transitively) contains itself reaches fmt.Sprint / log / `%#v`" — see SPEC["assumptions"]. -/
-theorem eval_never_panics_partial (f sc : Nat) (n : Ecal.Parse.Node) (hn : Frag n) (s : St) :
-    ((eval f sc n).run.run s).1 ≠ .error Sig.panic :=
-  eval_frag_no_panic f sc n hn s
+    Proved here: exactly that — plus preservation of `Inv` — for every tree in `Frag`
+    (`Ecal/Lemmas/C06NoPanic.lean`), ANY scope, ANY heap (operands of any kind, dangling references, cyclic
+    containers), any fuel. `Inv s` only says: the declarations in the function table and the trees of the
+    interpolation table are in `Frag` (`inv_empty`: it holds initially). `Frag` contains, nested to any depth:
+    * literals `number true false null`, raw AND interpolating string literals (every embedded expression
+      whose tree is in the table is evaluated; `Inv` makes those trees `Frag`), list literals (any length), map literals —
+      an entry that is not a key-value pair and an unhashable key are ERRORS (the repaired sites), not panics;
+    * unary `plus minus not`, `guard`; binary `plus minus times div divint modint and or == != >= > <= <
+      in notin hasprefix hassuffix` (deep equality, the stringifying comparison included); `like` and the
+      other nodes the model does not evaluate end in `unsupported`, never `panic`;
+    * identifiers without access path (read), `a := e` and `let a := e`, `let a` / `let [a, b]`;
+    * `statements` (any length), `break continue return`;
+    * `if` / `elif` / `else` (any number of guard/block pairs), condition loops (`loop` with a `guard`).
+    Also proved for every input (no fragment needed): the access-path functions `getValue setValue
+    containerGet containerWalk listIndex` (the three repaired negative-index sites), all heap / scope
+    primitives, `sprint`, `deepEq`.
+    Missing from `Frag`: access paths in the tree (`a.b[c]`: `accessString` needs a loop invariant for its
+    early return), destructuring assignment, `for … in` loops, `try` (control skeleton:
+    `error_in_try_catchable` and the C04 combinator theorems; `attemptE` / `withFreshIs` rules exist),
+    function declarations and calls (builtin argument checks: `builtin_total` on the Prims model; the
+    dangling-id case of `runFunction` is an `unsupported` outcome now), sink / import / mutex (not in the model). -/
+theorem eval_never_panics_partial (f sc : Nat) (n : Ecal.Parse.Node) (hn : Frag n) (s : St) (hs : Inv s) :
+    ((eval f sc n).run.run s).1 ≠ .error Sig.panic ∧ Inv ((eval f sc n).run.run s).2 :=
+  eval_frag_no_panic f sc n hn s hs
 
-/-- non-vacuity: a tree of the fragment (the operands of `%` are ill-typed / zero all the same) -/
-example : Frag fragExample := fragExample_ok
+/-- non-vacuity: a tree of the fragment (`a := [not (5 % true), {1}]`: ill-typed operands, a map entry that
+    is not a pair) and a state satisfying the invariant -/
+example : Frag fragExample ∧ Inv {} := ⟨fragExample_ok, inv_empty⟩
 
 end Ecal.Props.C06
